@@ -75,6 +75,9 @@ CHECKS = {
  "C16": dict(technique="CrossHair symbolic execution of ReplaceStep.merge / AddMarkStep.merge / RemoveMarkStep.merge and the apply methods with the four positions symbolic (merge conditions are equalities the solver satisfies) and slice/mark catalogue indices symbolic",
              text="For every catalogue document, every pair of adjacent replace steps (closed and open slices) and every pair of overlapping same-mark add/remove-mark steps where step 1 applies and step 2 applies to its result, a returned merged step applies to the original document, gives a document equal to the two-step result and changes the size by the same amount; merge never raises and returns None for non-adjacent, structure or foreign steps.",
              ref="4/C16"),
+ "C17": dict(technique="CrossHair symbolic execution of Step.map / MapResult flags / get_map / apply for a pair (X from a concrete sample of emitted single steps via a symbolic index, Y = the step of one Transform operation with symbolic arguments) under a symbolic separation precondition",
+             text="For templates of the list/strict/iso schemas, every sampled single step X and every step Y emitted by an operation with symbolic arguments whose touched extents are separated by at least one token, rebasing each over the other's map drops neither, both orders apply, and the two resulting documents are equal.",
+             ref="4/C17"),
 }
 CHECKS_END = None
 
